@@ -580,6 +580,21 @@ type unmarshalable struct{}
 
 func (unmarshalable) MarshalJSON() ([]byte, error) { return nil, errors.New("cannot marshal") }
 
+// unmarshalableRes fails to encode with an error of the library's own
+// error type: the response is system.internalError all the same, the inner
+// error is not the handler's outcome.
+type unmarshalableRes struct{}
+
+func (unmarshalableRes) MarshalJSON() ([]byte, error) { return nil, res.ErrNotFound }
+
+// badValue returns a value that cannot be encoded.
+func badValue(id int) interface{} {
+	if id%2 == 0 {
+		return unmarshalableRes{}
+	}
+	return unmarshalable{}
+}
+
 // panicMarshal panics while the library encodes it.
 type panicMarshal struct{ id int }
 
@@ -723,11 +738,11 @@ func (e *Engine) reply(s *Submission, r res.Resource, kind, what string) {
 	case "unmarshalable":
 		switch kind {
 		case "get":
-			r.(interface{ Model(interface{}) }).Model(unmarshalable{})
+			r.(interface{ Model(interface{}) }).Model(badValue(s.Op.ID))
 		case "access":
-			r.(errT).Error(&res.Error{Code: "test.bad", Message: "x", Data: unmarshalable{}})
+			r.(errT).Error(&res.Error{Code: "test.bad", Message: "x", Data: badValue(s.Op.ID)})
 		default:
-			r.(okT).OK(unmarshalable{})
+			r.(okT).OK(badValue(s.Op.ID))
 		}
 	}
 }
